@@ -1021,7 +1021,7 @@ pub fn explore<F: FmtX, A: Atomicity>(
     });
     let e2 = cnt.execs.load(Ordering::Relaxed);
     // job 3: length ladder (all ops x all ops after a tendril of every ladder length, in four representations)
-    let lad = if ladder_depth > 0 { ladder(ctx.tier == Tier::Thorough) } else { vec![] };
+    let lad = if ladder_depth > 0 { ladder(ctx.tier == Tier::Thorough && !ctx.replay_mode) } else { vec![] };
     let ltasks: Vec<(u32, usize)> = lad.iter().flat_map(|&n| (0..4usize).map(move |p| (n, p))).collect();
     ltasks.par_iter().for_each(|&(n, p)| {
         let mut sh = BTreeSet::new();
@@ -1042,6 +1042,9 @@ pub fn explore<F: FmtX, A: Atomicity>(
             }
         }
         v
+    } else if ctx.replay_mode {
+        // valgrind pass-through: two powers of two are enough to cross the allocator's size classes
+        [4096u32 - 1, 4096, 4097, 8192 - 16, 8192, 8193].to_vec()
     } else {
         vec![]
     };
@@ -1070,7 +1073,8 @@ pub fn run_all(ctx: &Ctx, mon: &dyn Monitor, depth: usize, wdepth: usize, small_
         shapes: Mutex::new(BTreeSet::new()),
     };
     let mut jobs = vec![];
-    let ld = if ctx.tier == Tier::Thorough { 2 } else { 2 };
+    // the valgrind pass-through (replay_mode) runs ~50x slower: ladder with one further operation only
+    let ld = if ctx.replay_mode { 1 } else { 2 };
     jobs.push(explore::<fmt::UTF8, NonAtomic>(ctx, "NonAtomic", depth, wdepth, ld, mon, &cnt));
     jobs.push(explore::<fmt::Bytes, NonAtomic>(ctx, "NonAtomic", depth, wdepth, ld, mon, &cnt));
     jobs.push(explore::<fmt::UTF8, Atomic>(ctx, "Atomic", small_depth, wdepth.min(small_depth), 1, mon, &cnt));
